@@ -6,9 +6,12 @@ open PP PP.Sexp PP.ActionGate
 /-!
 `gate <expr> "<input>" <do_actions T|F>`  ↦  `(<result> ((id loc) …))`
 
-  expr ::= (lit "c") | (act ((id kind)…) T|F expr) | (seq e e) | (alt e e) | (or e…) | (each e…)
+  expr ::= (lit "c") | (act ((id kind)…) T|F expr) | (hist (op…) expr) | (seq e e) | (alt e e) | (or e…) | (each e…)
          | (skipto e <e|none> T|F) | (many e <e|none>) | (star e <e|none>) | (opt e) | (fb e) | (not e)
   kind ::= keep | fail | fatal | err
+  op   ::= (set ((id kind)…) kw) | (add ((id kind)…) kw) | (cond ((id kind)…) kw) | clear | copy      kw ::= none | T | F
+
+`ops (op…)`  ↦  `(((id…) cdt) …)`   the configuration (ids in parseAction, callDuringTry) after every prefix
 -/
 
 def akindOf : String → Option AKind
@@ -18,6 +21,25 @@ def akindOf : String → Option AKind
 def actOf : Sexp → Option Act
   | .list [i, .atom k] => do pure ⟨(← i.nat?), (← akindOf k)⟩
   | _ => none
+
+def kwOf : Sexp → Option (Option Bool)
+  | .atom "none" => some none
+  | x => x.bool?.map some
+
+def opOf : Sexp → Option Op
+  | .list [.atom "set", .list as, k] => do pure (.setAct (← as.mapM actOf) (← kwOf k))
+  | .list [.atom "add", .list as, k] => do pure (.addAct (← as.mapM actOf) (← kwOf k))
+  | .list [.atom "cond", .list as, k] => do pure (.addCond (← as.mapM actOf) (← kwOf k))
+  | .atom "clear" => some .clear
+  | .atom "copy" => some .copy
+  | _ => none
+
+def cfgSexp (c : ACfg) : Sexp := .list [.list (c.acts.map fun a => ofNat a.id), ofBool c.cdt]
+
+/-- configurations after every prefix of the history -/
+def opsTrace (c : ACfg) : List Op → List Sexp
+  | [] => []
+  | o :: os => let c' := applyOp c o; cfgSexp c' :: opsTrace c' os
 
 def exprOf : Nat → Sexp → Option E
   | 0, _ => none
@@ -30,6 +52,8 @@ def exprOf : Nat → Sexp → Option E
     | .list [.atom "lit", .str c] => match c.toList with | [ch] => some (.lit ch) | _ => none
     | .list [.atom "act", .list as, cdt, e] => do
         pure (.act (← as.mapM actOf) (← cdt.bool?) (← exprOf f e))
+    | .list [.atom "hist", .list ops, e] => do
+        pure (E.ofHist (← ops.mapM opOf) (← exprOf f e))
     | .list [.atom "seq", a, b] => do pure (.seq (← exprOf f a) (← exprOf f b))
     | .list [.atom "alt", a, b] => do pure (.alt (← exprOf f a) (← exprOf f b))
     | .list (.atom "or" :: es) => do pure (.or (← es.mapM (exprOf f)))
@@ -54,6 +78,8 @@ def actionGateHandle : List Sexp → Option Sexp
       let e ← exprOf 64 x
       let r := parse s.toList 64 e 0 (← da.bool?) true
       pure (.list [rSexp r.1, .list (r.2.map fun ev => .list [ofNat ev.1, ofNat ev.2])])
+  | [.atom "ops", .list ops] => do
+      pure (.list (opsTrace .init (← ops.mapM opOf)))
   | _ => none
 
 end PP.Driver.ActionGateD
